@@ -6,8 +6,9 @@
 //!
 //! Space: 3 disposition types x file names = every string of length <= 3 over 14 characters (ASCII letter, space, quote,
 //! backslash, apostrophe, percent, asterisk, semicolon, equals, control, DEL, é, an astral character, slash) plus fixed
-//! longer names; header texts: every prefix of every produced header, and each produced header with one character
-//! replaced by each of 6 characters.
+//! longer names; header texts: every prefix of every produced header, each produced header with one character
+//! replaced by each of 6 characters, and three multi-parameter headers with every run of up to 11 characters deleted;
+//! a watchdog reports a text on which parsing does not return within 10 seconds.
 use ruma_common::http_headers::{ContentDisposition, ContentDispositionType};
 use serde_json::{json, Value};
 
@@ -71,12 +72,13 @@ pub fn run(tier: &str) -> Report {
             }
         }
     }
-    // parsing mutated header texts never panics
+    // parsing mutated header texts never panics and always returns: the texts are walked by a worker thread under a watchdog
     headers.sort();
     headers.dedup();
+    let mut texts: Vec<String> = vec![];
     for h in &headers {
         let cs: Vec<char> = h.chars().collect();
-        let mut texts: Vec<String> = (0..=cs.len()).map(|i| cs[..i].iter().collect()).collect();
+        texts.extend((0..=cs.len()).map(|i| cs[..i].iter().collect::<String>()));
         for i in 0..cs.len() {
             for r in ['"', '\\', ';', '=', '%', '\u{e9}'] {
                 let mut m = cs.clone();
@@ -84,10 +86,48 @@ pub fn run(tier: &str) -> Report {
                 texts.push(m.iter().collect());
             }
         }
-        for t in texts {
-            n += 1;
-            if std::panic::catch_unwind(|| (t.parse::<ContentDisposition>().is_ok(), ContentDisposition::try_from(t.as_bytes()).is_ok())).is_err() {
-                fail(&mut f_panic, json!({"header": t, "observed": "panic while parsing"}));
+    }
+    // several parameters, with one character deleted / a name or value emptied
+    for base in ["inline; filename=a; x=y;", "attachment; filename=my_file; name=\"q\"; filename*=utf-8''%C3%A9", "form-data; name=\"f\"; filename=\"a;b\"; z"] {
+        let cs: Vec<char> = base.chars().collect();
+        for i in 0..cs.len() {
+            let mut m = cs.clone();
+            m.remove(i);
+            texts.push(m.iter().collect());
+            for j in i + 1..cs.len().min(i + 12) {
+                let mut m2 = cs.clone();
+                m2.drain(i..j);
+                texts.push(m2.iter().collect());
+            }
+        }
+    }
+    texts.sort();
+    texts.dedup();
+    let total_texts = texts.len();
+    let (tx, rx) = std::sync::mpsc::channel::<(usize, bool)>();
+    let work = texts.clone();
+    std::thread::spawn(move || {
+        for (i, t) in work.iter().enumerate() {
+            let ok = std::panic::catch_unwind(|| (t.parse::<ContentDisposition>().is_ok(), ContentDisposition::try_from(t.as_bytes()).is_ok())).is_ok();
+            if tx.send((i, ok)).is_err() {
+                return;
+            }
+        }
+    });
+    let mut f_hang: Vec<Value> = vec![];
+    let mut done = 0usize;
+    while done < total_texts {
+        match rx.recv_timeout(std::time::Duration::from_secs(10)) {
+            Ok((i, ok)) => {
+                done = i + 1;
+                n += 1;
+                if !ok {
+                    fail(&mut f_panic, json!({"header": texts[i], "observed": "panic while parsing"}));
+                }
+            }
+            Err(_) => {
+                f_hang.push(json!({"header": texts[done], "observed": "no result within 10 seconds: parsing does not terminate"}));
+                break;
             }
         }
     }
@@ -97,6 +137,7 @@ pub fn run(tier: &str) -> Report {
         obligations: vec![
             ("content_disposition_survives_format_then_parse_and_reencodes_identically", n, f_rt),
             ("content_disposition_formatting_and_parsing_never_panic", n, f_panic),
+            ("content_disposition_parsing_always_returns", total_texts as u64, f_hang),
         ],
     }
 }
